@@ -33,6 +33,31 @@ def tls_flow(conn, ep, segs, bad=(), ethpad=False):
     return Flow("tls", ep, items, conn, list(conn.keylog))
 
 
+def stale_item(items, ep, rng, conn=-1, kind=None):
+    """-> (position, Item, description) or None: one TCP segment that carries nothing new, to be inserted into the capture-ordered items of one connection -
+    a keep-alive probe (RFC 1122 4.2.3.6: one octet at SND.NXT-1, garbage or zero, or the last octet sent) after the data sent so far, or a retransmission that
+    starts *inside* an already captured segment (re-segmentation after a path-MTU change, a partially acknowledged segment)."""
+    data = [(i, it) for i, it in enumerate(items) if it.seg is not None and getattr(it.seg, "payload", None) and not it.seg.dup and not it.seg.flags & 0x02 and (conn < 0 or it.conn == conn)]
+    if not data:
+        return None
+    i, it = rng.choice(data)
+    s = it.seg
+    kind = kind or rng.choice(["keepalive-garbage", "keepalive-zero", "keepalive-last", "offset", "offset"])
+    later = [j for j, x in data if j > i and x.seg.dir == s.dir]
+    if kind.startswith("keepalive"):
+        # the probe repeats the sequence number in front of SND.NXT: it follows the direction's last captured data segment so far, before the direction's next one
+        pos = rng.randrange(i + 1, (later[0] if later else len(items)) + 1)
+        byte = {"keepalive-garbage": rng.randbytes(1), "keepalive-zero": b"\x00", "keepalive-last": s.payload[-1:]}[kind]
+        new = tcpcap.Seg(s.dir, (s.seq + len(s.payload) - 1) & 0xFFFFFFFF, s.ack, 0x10, byte, -1, s.burst, True)
+    else:
+        if len(s.payload) < 2:
+            return None
+        k = rng.randrange(1, len(s.payload))
+        pos = rng.randrange(i + 1, len(items) + 1)
+        new = tcpcap.Seg(s.dir, (s.seq + k) & 0xFFFFFFFF, s.ack, 0x18, s.payload[k:], -1, s.burst, True)
+    return pos, Item(tcpcap.frame(ep, new), conn=it.conn, dir=s.dir, ts=0, seg=new, tag="tcp-stale"), f"{kind} segment of direction {s.dir} (seq {new.seq}, {len(new.payload)} octet(s)) inserted at {pos}"
+
+
 def merge(flows, rng, mode="random"):
     """order-preserving merge of the flows' item lists -> [Item] with .conn set; modes: concat | roundrobin | bursty | random | nested"""
     lists = [list(f.items) for f in flows]
